@@ -592,7 +592,11 @@ def correspond(ctx, model):
     ctx.extra["derived_grid"]["shortcut_pairs_run"] = len(short)
     for cfg in pick_u + pick_b:
         run_config(ctx, model, cfg, rng, views=False, stream="derived")
-    for cfg in short if ctx.thorough else [short[int(i)] for i in rng.permutation(len(short))[:60]]:
+    fam = lambda c: c["cls"] in ("Diagonal", "ScaledIdentity", "Identity")
+    always = [c for c in short if c["form"] == "comp" and fam(c["a"]) and fam(c["b"])]  # cheap: run in both tiers
+    rest = [c for c in short if not (c["form"] == "comp" and fam(c["a"]) and fam(c["b"]))]
+    pick_s = rest if ctx.thorough else [rest[int(i)] for i in rng.permutation(len(rest))[:50]]
+    for cfg in always + pick_s:
         run_config(ctx, model, cfg, rng, views=False, stream="shortcut")
     # 4. leaf models ------------------------------------------------------------------------------------------------
     leaf_models(ctx, model, rng)
